@@ -12,7 +12,7 @@ from mc.world import World1, num_in, num_out, journal_rows, conn_key, task_resul
 POOL = [("SRV", "CLI"), ("ACC", "INI"), ("S1", "T1"), ("EXCH", "FIRM")]
 CFG = {"S": "SRV", "T": "CLI", "quick": True}
 
-SENDS = ("app", "hb", "logon", "logout", "tr_direct", "tr_api", "sr_nonum", "sr_num", "pd_copy", "app_grp", "app_pdn", "app_bad")
+SENDS = ("app", "hb", "logon", "logout", "tr_direct", "tr_api", "sr_nonum", "sr_num", "pd_copy", "app_grp", "app_pdn", "app_bad", "type_bad")
 INBOUND = ("logon", "app", "tr", "gap_app", "rr1", "rr2", "gapfill", "logout", "hb")
 
 
@@ -31,6 +31,8 @@ def mk_msg(kind, c, uid):
         # a message that cannot be put on the wire (text with a lone surrogate is not encodable as utf-8): whatever the
         # send call does with it, the numbering of the messages that do leave stays gap-free
         return FIXMessage("D", {11: f"b{uid}", 58: "bad \udc80 text"})
+    if kind == "type_bad":
+        return FIXMessage("U\udcff", {11: f"t{uid}"})  # custom MsgType that is not encodable as utf-8
     if kind == "hb":
         return FIXMessage(FMsg.HEARTBEAT)
     if kind == "logon":
